@@ -229,6 +229,22 @@ func (s *Server) Seed(obj map[string]interface{}) string {
 	return string(u.GetUID())
 }
 
+// SeedVerbatim is Seed for an object that already carries the resourceVersion it shall be stored with (harnesses
+// that need to know it beforehand, e.g. to put it into a last-applied record). The caller picks a value above
+// anything the server hands out during the test.
+func (s *Server) SeedVerbatim(obj map[string]interface{}) string {
+	rv, _, _ := unstructured.NestedString(obj, "metadata", "resourceVersion")
+	uid := s.Seed(obj)
+	s.mu.Lock()
+	defer s.mu.Unlock()
+	u := &unstructured.Unstructured{Object: obj}
+	k := s.KindByKind(u.GetAPIVersion(), u.GetKind())
+	if o := s.objs[objKey(k, u.GetNamespace(), u.GetName())]; o != nil && rv != "" {
+		_ = unstructured.SetNestedField(o, rv, "metadata", "resourceVersion")
+	}
+	return uid
+}
+
 func (s *Server) stamp(u *unstructured.Unstructured, fresh bool) {
 	if fresh {
 		if u.GetUID() == "" {
